@@ -2,18 +2,19 @@
 
 For every service of the emitted library named in the payload:
 1. lists which of the ten mixin client methods exist on the emitted sync and asyncio clients;
-2. calls every one that exists on the sync gRPC client, the asyncio gRPC client and the sync REST client
-   against the loopback servers and records what the SERVER saw:
+2. creates one client INSTANCE per loopback server (two gRPC and two HTTP servers, instances A and B, all alive in the one
+   process) for the sync gRPC client, the asyncio gRPC client and the sync REST client, calls every mixin method that exists on
+   the instances in the order of payload `order` (A, B, A) and records WHICH server got the request and what it saw:
      gRPC: method path, whether the request bytes decode with the STANDARD request type (installed pb2 modules
            google.longrunning.operations_pb2 / google.iam.v1.iam_policy_pb2 / google.cloud.location.locations_pb2,
            i.e. the input descriptors) to the message the caller passed, the x-goog-request-params header;
      REST: verb, raw path, where the non-path request fields travelled (body / query), body present or not;
    and what the caller got back (descriptor full name of the returned object, equality with the server's reply).
 
-payload: {module, services: [{service, service_snake}..], kinds: [grpc|grpc_asyncio|rest ..],
+payload: {module, services: [{service, service_snake}..], kinds: [grpc|grpc_asyncio|rest ..], order: [A, B, A],
           rpcs: [{rpc, snake, reqtype, resptype, field, value}]}          (table printed by the specification)
 result : {services: {<service>: {present: {sync: [snake..], asyncio: [snake..] | null},
-                                 calls: [{rpc, kind, raised, sent: [{...}], ret_type, ret_same}]}}}
+                                 calls: [{rpc, kind, inst, raised, sent: [{server, ...}], ret_type, ret_same}]}}}
 The driver holds no expectation: which calls must look how is decided in TLA+.
 """
 import asyncio
@@ -79,8 +80,8 @@ class World:
         self.cur = None          # rpc record of the call in flight
         self.sent = None
 
-    # ---- gRPC server side
-    def respond(self, path, reqs, md, tr):
+    # ---- gRPC server side (tag = which of the loopback servers got the request)
+    def respond(self, tag, path, reqs, md, tr):
         r = self.cur
         want = build_request(r)
         got = cls_of(r['reqtype'])()
@@ -92,11 +93,11 @@ class World:
         except Exception:
             decodes = False
         hdr = [v for k, v in md if k == 'x-goog-request-params']
-        self.sent.append(dict(path=path, nreq=len(reqs), req_decodes=bool(decodes), req_same=bool(same), headers=hdr))
+        self.sent.append(dict(server=tag, path=path, nreq=len(reqs), req_decodes=bool(decodes), req_same=bool(same), headers=hdr))
         return [build_reply(r).SerializeToString()]
 
     # ---- HTTP server side
-    def respond_http(self, entry):
+    def respond_http(self, tag, entry):
         r = self.cur
         extra = EXTRA.get(r['rpc'], {})
         body = entry['body']
@@ -124,7 +125,7 @@ class World:
             in_query = bool(camel) and camel <= top
         extra_in = ('none' if not extra else 'both' if in_body and in_query else 'body' if in_body
                     else 'query' if in_query else 'lost')
-        self.sent.append(dict(verb=entry['verb'].lower(), path=urllib.parse.unquote(entry['path']), rawpath=entry['path'],
+        self.sent.append(dict(server=tag, verb=entry['verb'].lower(), path=urllib.parse.unquote(entry['path']), rawpath=entry['path'],
                               query=entry['query'], body_kind=body_kind, body_has_var=body_has_var, extra_in=extra_in))
         reply = build_reply(r)
         return 200, json_format.MessageToJson(reply).encode(), {}
@@ -147,11 +148,15 @@ def project_return(r, res):
     return d.full_name, same
 
 
-def drive_service(pl, w, srv, hsrv, service, service_snake):
-    """presence + calls for the clients of one service of the emitted library."""
+def drive_service(pl, w, servers, service, service_snake):
+    """presence + calls for the clients of one service of the emitted library.  servers: {instance: (grpc server, http
+    server)}; one client instance per server is created for every client kind / transport, all alive at the same time, and
+    every method is called on the instances in the order pl['order'] (e.g. A, B, A)."""
     calls = []
     present = dict(sync=None, asyncio=None)
     names = [r['snake'] for r in pl['rpcs']]
+    order = pl.get('order') or ['A']
+    insts = sorted(set(order))
     mod, C = rt.import_client(pl['module'], service, False)
     present['sync'] = [n for n in names if callable(getattr(C, n, None))]
     try:
@@ -161,9 +166,9 @@ def drive_service(pl, w, srv, hsrv, service, service_snake):
         AC = None
     chlog = []
 
-    def record(r, kind, fn):
+    def record(r, kind, inst, fn):
         w.cur, w.sent = r, []
-        rec = dict(rpc=r['rpc'], kind=kind, raised=None, ret_type=None, ret_same=False)
+        rec = dict(rpc=r['rpc'], kind=kind, inst=inst, raised=None, ret_type=None, ret_same=False)
         try:
             res = fn(build_request(r))
             rec['ret_type'], rec['ret_same'] = project_return(r, res)
@@ -173,32 +178,37 @@ def drive_service(pl, w, srv, hsrv, service, service_snake):
         calls.append(rec)
 
     if 'grpc' in pl['kinds']:
-        _, client, ch = rt.grpc_client(pl['module'], service_snake, service, srv.target, chlog)
+        made = {i: rt.grpc_client(pl['module'], service_snake, service, servers[i][0].target, chlog) for i in insts}
         for r in pl['rpcs']:
             if r['snake'] in present['sync']:
-                record(r, 'grpc', lambda req, r=r: getattr(client, r['snake'])(request=req))
-        ch.close()
+                for i in order:
+                    record(r, 'grpc', i, lambda req, r=r, c=made[i][1]: getattr(c, r['snake'])(request=req))
+        for i in insts:
+            made[i][2].close()
     if 'rest' in pl['kinds']:
-        _, rclient = rt.rest_client(pl['module'], service_snake, service, hsrv.hostport)
+        rmade = {i: rt.rest_client(pl['module'], service_snake, service, servers[i][1].hostport)[1] for i in insts}
         for r in pl['rpcs']:
             if r['snake'] in present['sync']:
-                record(r, 'rest', lambda req, r=r: getattr(rclient, r['snake'])(request=req))
+                for i in order:
+                    record(r, 'rest', i, lambda req, r=r, c=rmade[i]: getattr(c, r['snake'])(request=req))
     if 'grpc_asyncio' in pl['kinds'] and AC is not None:
         async def amain():
-            _, aclient, ach = rt.grpc_client(pl['module'], service_snake, service, srv.target, chlog, asyncio_=True)
+            amade = {i: rt.grpc_client(pl['module'], service_snake, service, servers[i][0].target, chlog, asyncio_=True) for i in insts}
             for r in pl['rpcs']:
                 if r['snake'] not in present['asyncio']:
                     continue
-                w.cur, w.sent = r, []
-                rec = dict(rpc=r['rpc'], kind='grpc_asyncio', raised=None, ret_type=None, ret_same=False)
-                try:
-                    res = await getattr(aclient, r['snake'])(request=build_request(r))
-                    rec['ret_type'], rec['ret_same'] = project_return(r, res)
-                except Exception as e:
-                    rec['raised'] = f'{type(e).__name__}: {str(e)[:300]}'
-                rec['sent'] = w.sent
-                calls.append(rec)
-            await ach.close()
+                for i in order:
+                    w.cur, w.sent = r, []
+                    rec = dict(rpc=r['rpc'], kind='grpc_asyncio', inst=i, raised=None, ret_type=None, ret_same=False)
+                    try:
+                        res = await getattr(amade[i][1], r['snake'])(request=build_request(r))
+                        rec['ret_type'], rec['ret_same'] = project_return(r, res)
+                    except Exception as e:
+                        rec['raised'] = f'{type(e).__name__}: {str(e)[:300]}'
+                    rec['sent'] = w.sent
+                    calls.append(rec)
+            for i in insts:
+                await amade[i][2].close()
         asyncio.run(amain())
     return dict(present=present, calls=calls)
 
@@ -206,14 +216,16 @@ def drive_service(pl, w, srv, hsrv, service, service_snake):
 def main():
     pl = rt.read_payload()
     w = World(pl)
-    srv = lg.Server(w.respond)
-    hsrv = lh.Server(w.respond_http)
+    servers = {}
     out = {}
     try:
+        for i in sorted(set(pl.get('order') or ['A'])):
+            servers[i] = (lg.Server(lambda *a, _i=i: w.respond(_i, *a)), lh.Server(lambda e, _i=i: w.respond_http(_i, e)))
         for sv in pl['services']:
-            out[sv['service']] = drive_service(pl, w, srv, hsrv, sv['service'], sv['service_snake'])
+            out[sv['service']] = drive_service(pl, w, servers, sv['service'], sv['service_snake'])
     finally:
-        srv.stop(); hsrv.stop()
+        for g, h in servers.values():
+            g.stop(); h.stop()
     rt.emit(dict(services=out))
 
 
